@@ -300,6 +300,9 @@ func runValues(c *Ctx) {
 	if c.Shard == 0 && c.Begin("values-shared") {
 		sharedCases(c)
 	}
+	if c.Shard == 0 && c.Begin("values-shared-default") {
+		sharedDefaultCases(c)
+	}
 	for _, t := range vtypes {
 		for _, asOpt := range []bool{true, false} {
 			for nz := 0; nz < 2; nz++ {
@@ -391,6 +394,11 @@ func runValues(c *Ctx) {
 }
 
 func replayValues(c *Ctx, cs Case) {
+	if sd, _ := cs["shared_default"].(bool); sd {
+		nested, _ := cs["nested"].(bool)
+		sharedDefaultCase(c, cInt(cs, "kind"), cInt(cs, "layout"), cInt(cs, "mask"), nested)
+		return
+	}
 	if sh, _ := cs["shared"].(bool); sh {
 		swap, _ := cs["swap"].(bool)
 		nested, _ := cs["nested"].(bool)
